@@ -11,6 +11,7 @@
 #include <cstring>
 #include <deque>
 #include <filesystem>
+#include <dirent.h>
 #include <fcntl.h>
 #include <fstream>
 #include <poll.h>
@@ -963,6 +964,7 @@ static int CmdRun(const std::string& prop, Tier tier, uint64_t base_seed, int jo
     // violations: gate, minimise, replay; one report per distinct class (max 3)
     auto findings = LoadFindings(g_verif_dir + "/known_findings.txt");
     int unlisted = 0, known = 0, simfault = 0;
+    std::set<std::string> hit_keys; //!< keys of listed findings already reported by this batch
     std::set<std::string> seen_cls;
     int unlisted_classes = 0, known_classes = 0;
     std::vector<std::string> viol_reports;
@@ -1019,7 +1021,7 @@ static int CmdRun(const std::string& prop, Tier tier, uint64_t base_seed, int jo
         bool is_known = false;
         for (auto& f : findings) {
             if (f.prop == e.prop && (mr.cls.find(f.key) != std::string::npos || mr.detail.find(f.key) != std::string::npos)) {
-                printf("KNOWN-FINDING: property=%s key=%s%s\n", e.prop.c_str(), f.key.c_str(), f.text.c_str());
+                if (hit_keys.insert(f.key).second) printf("KNOWN-FINDING: property=%s key=%s%s\n", e.prop.c_str(), f.key.c_str(), f.text.c_str());
                 is_known = true;
                 ++known;
                 break;
@@ -1032,6 +1034,46 @@ static int CmdRun(const std::string& prop, Tier tier, uint64_t base_seed, int jo
         }
         fflush(stdout);
     }
+
+    // Every listed finding of this property is reported on every run: one that this batch did not meet is reproduced from its stored
+    // replay under findings/ (a fresh process; the replay must still end in a violation whose class or detail carries the key).
+    for (auto& f : findings) {
+        if (f.prop != e.prop || hit_keys.count(f.key)) continue;
+        DIR* d = opendir((g_verif_dir + "/findings").c_str());
+        if (!d) break;
+        std::vector<std::string> files;
+        while (dirent* de = readdir(d)) {
+            std::string n = de->d_name;
+            if (n.rfind(e.prop + "-", 0) == 0 && n.size() > 5 && n.substr(n.size() - 5) == ".json") files.push_back(n);
+        }
+        closedir(d);
+        std::sort(files.begin(), files.end());
+        // files that name the key first (older, hand-kept replay files carry no violation record)
+        std::stable_partition(files.begin(), files.end(), [&](const std::string& n) {
+            std::ifstream in(g_verif_dir + "/findings/" + n);
+            std::stringstream ss;
+            ss << in.rdbuf();
+            return ss.str().find(f.key) != std::string::npos;
+        });
+        for (auto& n : files) {
+            const std::string file = g_verif_dir + "/findings/" + n;
+            std::string cmd = ShellQuote(g_self) + " replay " + ShellQuote(file) + " --quiet 2>/dev/null";
+            FILE* pf = popen(cmd.c_str(), "r");
+            if (!pf) continue;
+            std::string out;
+            char buf[4096];
+            size_t got;
+            while ((got = fread(buf, 1, sizeof buf, pf)) > 0) out.append(buf, got);
+            int rc = pclose(pf);
+            if (WIFEXITED(rc) && WEXITSTATUS(rc) == 1 && out.find("violated=1") != std::string::npos && out.find(f.key) != std::string::npos) {
+                printf("KNOWN-FINDING: property=%s key=%s%s (not met by this batch; reproduced from findings/%s)\n", e.prop.c_str(), f.key.c_str(), f.text.c_str(), n.c_str());
+                hit_keys.insert(f.key);
+                ++known;
+                break;
+            }
+        }
+    }
+    fflush(stdout);
 
     double wall = std::chrono::duration<double>(std::chrono::steady_clock::now() - t0).count();
     // evidence
